@@ -242,7 +242,7 @@ def later(c, kind, name, f, orig, loaded, info):
     s1, r1 = one(orig)
     s2, r2 = one(loaded)
     c.evals += 1
-    c.run.count(f"later:{kind}:{name}" + (":both-raise" if s1 == s2 == "exc" else ""))
+    c.run.count(f"later:{kind}:{name}" + (":both-raise:" + type(r1).__name__ if s1 == s2 == "exc" else ""))
     if s1 == "exc" and s2 == "exc":
         if type(r1) is not type(r2):
             c.violate(f"{kind}:later-operation:{name}:different-exception",
@@ -472,23 +472,15 @@ def part_spill(c, n):
             probs = cmp_chain_fields(c, "mps", ref, ld, info, True)
             if probs:
                 c.violate("spill:dump-load:field", dict(info, problems=probs[:5]))
-            a = np.asarray(mpo.apply(ref.copy()).todense())
-            b = np.asarray(mpo.apply(sp).todense())
-            if not close(a, b):
-                c.violate("spill:later-operation:apply", info)
-            a = np.asarray(ref.copy().canonicalise().todense())
-            cp = sp.copy()
-            b = np.asarray(cp.canonicalise().todense())
-            if not close(a, b):
-                c.violate("spill:later-operation:canonicalise", info)
+            later(c, "spill", "apply", lambda x: np.asarray(mpo.apply(x).todense()), ref, sp, info)
+            later(c, "spill", "canonicalise", lambda x: np.asarray(x.canonicalise().todense()), ref, sp, info)
+            later(c, "spill", "evolve", lambda x: dense_coeff(x.evolve(mpo, 0.05)), ref, sp, info)
             sub = os.path.join(d, str(id(sp)))
             had = os.path.isdir(sub)
             del sp
             gc.collect()
             if nspill and (not had or os.path.isdir(sub)):
                 c.violate("spill:directory-not-removed" if had else "spill:directory-missing", dict(info, limit=limit))
-            del cp
-            gc.collect()
         except Exception as e:
             c.violate("spill:raises:" + type(e).__name__, dict(info, error=str(e)[:300]))
 
